@@ -670,6 +670,9 @@ pub fn run(ctx: &mut Ctx) {
     // rounding a zoned difference to hours / minutes with an increment across days that are not 24 h long (C14's
     // reference DifferenceZonedDateTime + NudgeToZonedTime on the rule table)
     ctx.run_prop(&super::c14::Sub, &super::c14::rounding_across_days_case, ctx.tier.pick(150_000, 4_000_000));
+    // year-month until / since with smallestUnit year / month and an increment (receivers incl. those with an
+    // explicit hidden reference day) against the plain-date model from the first of the month: C18's sub-check
+    ctx.run_prop(&super::c18::YmDiffSub, &super::c18::ym_diff_case, ctx.tier.pick(300_000, 5_000_000));
 }
 
 pub fn replay(ctx: &mut Ctx, sub: &str, case: &Value) -> bool {
@@ -678,6 +681,7 @@ pub fn replay(ctx: &mut Ctx, sub: &str, case: &Value) -> bool {
         "public" => ctx.replay_case(&PubSub, case),
         "cal-tie" => ctx.replay_case(&super::c07cal::CalSub, case),
         "zoned" => ctx.replay_case(&super::c14::Sub, case),
+        "ym-diff" => ctx.replay_case(&super::c18::YmDiffSub, case),
         _ => false,
     }
 }
